@@ -16,6 +16,7 @@ import (
 	"github.com/regclient/regclient/internal/reghttp"
 	"github.com/regclient/regclient/internal/reqmeta"
 	"github.com/regclient/regclient/scheme"
+	"github.com/regclient/regclient/types/descriptor"
 	"github.com/regclient/regclient/types/errs"
 	"github.com/regclient/regclient/types/manifest"
 	"github.com/regclient/regclient/types/mediatype"
@@ -244,7 +245,7 @@ func (reg *Reg) ManifestPut(ctx context.Context, r ref.Ref, m manifest.Manifest,
 		// The reference names the manifest by another digest (algorithm) than the manifest object carries.
 		// The registry stores it under the digest of the reference, recreate the manifest with that ref so the
 		// cache and the referrers fallback tag record that digest. This fails if the digest does not match the body.
-		m, err = manifest.New(manifest.WithRef(r), manifest.WithRaw(mj))
+		m, err = manifest.New(manifest.WithRef(r), manifest.WithDesc(descriptor.Descriptor{MediaType: manifest.GetMediaType(m)}), manifest.WithRaw(mj))
 		if err != nil {
 			return fmt.Errorf("failed rebuilding manifest with ref \"%s\": %w", r.CommonName(), err)
 		}
